@@ -3,7 +3,7 @@
 Stores a confirmed seeded change under /verif/seeded/<seed-id>/ (patch.diff, demo, README, meta.json)."""
 import json, os, shutil, sys
 wt, sid, prop, demo = sys.argv[1:5]
-rest = " ".join(sys.argv[5:]).split(" -- ")
+rest = " ".join(sys.argv[5:]).split(" -- ")  # NB: field texts must not contain " -- "
 rest = [r.strip() for r in rest if r.strip()]
 needs, ran, caught = (rest + ["", "", ""])[:3]
 dst = os.path.join("/verif/seeded", sid)
